@@ -46,17 +46,18 @@ case_strategy = st.fixed_dictionaries({
     "docov": st.sampled_from([False, False, True]),
     "clip": st.sampled_from([(5.0, 4.0), (6.0, 3.0)]),
     "cli": st.sampled_from([False, False, True]),
+    "reuse": st.sampled_from([None, None, ["P", "N", "B"], ["N", "B", "P"], ["B", "P", "N"], ["N", "P"], ["P", "B"]]),
 })
 
 
-def run(path, c, bkgval, files, nopositive=False, nonegative=False):
+def run(path, c, bkgval, files, nopositive=False, nonegative=False, finder=None):
     kw = dict(innerclip=c["clip"][0], outerclip=c["clip"][1], docov=c["docov"], cores=1, doislandflux=c["islandflux"],
               nopositive=nopositive, nonegative=nonegative)
     if files:
         kw.update(rmsin=files[0], bkgin=files[1])
     else:
         kw.update(rms=1.0, bkg=bkgval)
-    return SourceFinder().find_sources_in_image(path, **kw)
+    return (finder or SourceFinder()).find_sources_in_image(path, **kw)
 
 
 COMP_FLOATS = ["a", "b", "pa", "err_ra", "err_dec", "err_peak_flux", "err_a", "err_b", "err_pa", "err_int_flux", "local_rms",
@@ -145,6 +146,12 @@ def check_case(c):
         P = run(pos, c, c["bkglevel"], fpos, nonegative=True)
         N = run(pos, c, c["bkglevel"], fpos, nopositive=True)
         none = run(pos, c, c["bkglevel"], fpos, nopositive=True, nonegative=True)
+        # one finder object used for several polarity settings on the same image, in a generated order
+        reuse = {}
+        if c.get("reuse"):
+            sf_ = SourceFinder()
+            for name in c["reuse"]:
+                reuse[name] = list(run(pos, c, c["bkglevel"], fpos, nopositive=(name == "N"), nonegative=(name == "P"), finder=sf_))
         cli = {}
         if c.get("cli"):
             from vlib.cli import run_aegean
@@ -297,6 +304,16 @@ def check_case(c):
             what, len(tp), len(tn), len(tb)), **tags)
     if any(isinstance(s, ComponentSource) for s in none):
         res.bad("both-filters-not-empty", "%s: nopositive and nonegative together still return components" % what, **tags)
+    for name, got in reuse.items():
+        want = {"P": tp, "N": tn, "B": tb}[name]
+        if sorted(rowtuple(s_) for s_ in got if isinstance(s_, ComponentSource)) != want:
+            res.bad("filters-reused-finder", "%s: one SourceFinder used for the settings %r in that order: the %s catalogue has %d "
+                    "components, a fresh finder gives %d" % (what, list(c["reuse"]), {"P": "positive-only", "N": "negative-only",
+                                                                                   "B": "both-polarities"}[name],
+                                                             sum(1 for s_ in got if isinstance(s_, ComponentSource)), len(want)), **tags)
+            break
+    if reuse:
+        res.label("reused-finder")
     # ---- the command line: no flag = positive only, --negative = both, --negative --nopositive = negative only
     if cli:
         for name, want in (("default", tp), ("negative", tb), ("nopositive", tn)):
